@@ -70,6 +70,12 @@ def gen_map(rng, existing: typing.List[bytes], allow_relative: bool) -> bytes:
                 lines.append(typ + nm + rng.choice([b"\t", b"\t\t", b"\t\t\t"]))
             elif k < 0.45 and allow_relative:
                 lines.append(typ + name + b"\t" + rng.choice(existing + [b"sub/deeper.txt", b"nothere"]))
+            elif k < 0.5 and allow_relative:
+                # selectors with a parent-directory component, naming things that exist and things that do not: every
+                # line is an entry whatever it points at (whether the server then serves it is another property's matter)
+                e1, e2 = rng.choice(existing), rng.choice(existing)
+                lines.append(typ + name + b"\t" + rng.choice([b"..", b"../", b"../" + e1, e1 + b"/../" + e2, b"../nothere", b"./" + e1,
+                                                              b"/" + e1 + b"/../" + e2, b"/.."]))
             elif k < 0.65:
                 lines.append(typ + name + b"\t/" + rng.choice(existing + [b"abs/path", b"x y/z"]))
             elif k < 0.75:
